@@ -15,3 +15,18 @@ theorem List.nodup_subset_length_le {l₁ : List Nat} : ∀ {l₂ : List Nat}, l
     have hp : 0 < l₂.length := List.length_pos_of_mem ha
     simp only [List.length_cons]
     omega
+
+/-- a function whose image list has no duplicates is injective on the list -/
+theorem List.eq_of_nodup_map {α : Type} (f : α → Nat) : ∀ (l : List α) (a b : α), (l.map f).Nodup → a ∈ l → b ∈ l → f a = f b → a = b := by
+  intro l
+  induction l with
+  | nil => intro a b _ ha; cases ha
+  | cons x t ih =>
+    intro a b hnd ha hb hab
+    simp only [List.map_cons] at hnd
+    have hnd' := List.nodup_cons.mp hnd
+    rcases List.mem_cons.mp ha with rfl | ha' <;> rcases List.mem_cons.mp hb with rfl | hb'
+    · rfl
+    · exact absurd (hab ▸ List.mem_map_of_mem hb') hnd'.1
+    · exact absurd (hab ▸ List.mem_map_of_mem ha') hnd'.1
+    · exact ih a b hnd'.2 ha' hb' hab
